@@ -322,6 +322,50 @@ def load_known(prop):
     return res
 
 
+class RepoPanic(Exception):
+    """The driver died of a panic raised inside the repository's own code: real-code behaviour, a verdict."""
+
+    def __init__(self, fn, excerpt):
+        Exception.__init__(self, fn)
+        self.fn = fn
+        self.excerpt = excerpt
+
+
+def repo_panic(out):
+    """If `out` holds a Go panic whose RAISING frame (the first frame below the runtime's) belongs to the repository
+    (github.com/idena-network/idena-go/...), return that function's name; a panic raised by harness code returns None."""
+    i = out.find("panic: ")
+    if i < 0:
+        i = out.find("fatal error: ")
+    if i < 0:
+        return None
+    j = out.find("[running]:", i)
+    if j < 0:
+        return None
+    for line in out[j:].splitlines()[1:80]:
+        line = line.strip()
+        if not line or line.startswith(("/", "goroutine ", "created by ")):
+            continue
+        m = re.match(r"^(\S+)\(", line)
+        fn = m.group(1) if m and not line.startswith("panic(") else "panic"
+        if fn.startswith(("runtime.", "panic", "runtime/", "sync.", "reflect.", "testing.")):
+            continue
+        if fn.startswith("github.com/idena-network/idena-go/"):
+            return fn[len("github.com/idena-network/idena-go/"):]
+        return None
+    return None
+
+
+def driver_failure(ctx, out, what="driver failed"):
+    """Called when a driver process died: a panic inside the repository's code is a verdict (RepoPanic, turned into a
+    VIOLATION by tools/check), everything else means the check could not be carried out."""
+    fn = repo_panic(out or "")
+    if fn:
+        i = max((out or "").find("panic: "), 0)
+        raise RepoPanic(fn, (out or "")[i:i + 2500])
+    raise CheckError("%s:\n%s" % (what, (out or "")[-3000:]))
+
+
 def report_violation(ctx, key, what, replay_src=None, payload=None):
     """Record a violation observed on the real code. `key` identifies the specific input / call site /
     history signature; it is matched against known_findings.jsonl (status known)."""
